@@ -95,6 +95,10 @@ mod inner {
 #[cfg(unix)]
 mod tz_info;
 
+#[cfg(all(unix, chronotope_chrono_verif))]
+#[doc(hidden)]
+pub use tz_info::verif as __verif_tz;
+
 /// The local timescale.
 ///
 /// Using the [`TimeZone`](./trait.TimeZone.html) methods
